@@ -55,9 +55,10 @@ class Ctx:
         self.t0 = time.time()
         self.notes: list[str] = []
         self.prog = Program(repo)
-        from .model import canonicalise_private_helpers
+        from .model import canonicalise_private_attributes, canonicalise_private_helpers
 
         self.renamed_helpers = canonicalise_private_helpers(self.prog)
+        self.renamed_helpers.update(canonicalise_private_attributes(self.prog))
         register_program_exceptions(self.prog)
         self.res = Resolver(self.prog)
         self.findings: list[Finding] = []
@@ -80,6 +81,28 @@ class Ctx:
             f = self.func(f)
         self.functions_analysed.add(f.qualname)
         return build_cfg(f)
+
+    def icfg(self, f: FuncInfo | str, exclude: tuple[str, ...] = (), depth: int = 3, include_async: bool = True):
+        """f's CFG with the private helpers of its own class / module inlined (helper extraction tolerant). Cached."""
+        from . import flow
+
+        if isinstance(f, str):
+            f = self.func(f)
+        key = (f.qualname, exclude, depth, include_async)
+        cache = self.__dict__.setdefault("_icfg_cache", {})
+        if key in cache:
+            return cache[key]
+        from .rules.common import helper_callees
+
+        helpers = {h.qualname for h in helper_callees(self, f, depth)}
+
+        def policy(n, cal):
+            return cal.qualname in helpers and cal.name not in exclude and (include_async or not cal.is_async)
+
+        g = flow.inline(f, self.res, depth, policy)
+        cache[key] = g
+        self.functions_analysed.add(f.qualname)
+        return g
 
     def ok(self, rule: str, instance: str, detail: str = "", nontrivial: bool = True, sample: dict | None = None) -> None:
         self.obligations.append(Obligation(rule, instance, True, detail, nontrivial))
